@@ -370,6 +370,10 @@ def free_run(ctx, scenarios, rounds=1, race=True, name="free", timeout=1500):
         extra.append({"ev": "Race", "what": out[i:i + 1800]})
     if rc == 124:
         extra.append({"ev": "Hang", "what": "the test binary did not finish within %ds of wall-clock time" % timeout})
+    elif rc != 0 and "panic: test timed out after" in out:
+        # go test's own alarm: the DRIVER ran out of time (a saturated machine, too much work) - a tool failure, never a
+        # verdict.  A call that hangs is recognised inside the bubble (Hang event) long before this alarm.
+        raise Inconclusive("the free-running driver exceeded its time limit (go test alarm); nothing is concluded from it")
     elif rc != 0 and "panic:" in out and "DATA RACE" not in out:
         i = out.index("panic:")
         frames = out[i:i + 2500]
